@@ -775,23 +775,26 @@ namespace
                 auto a_arr = a.data<d_array>()->value();
                 auto b_arr = b.data<d_array>()->value();
 
-                for (size_t idx = 0; idx < a_arr.size(); ++idx)
+                // sub-arrays are ordered by their elements from left to right (the structure check above made
+                // sure they have the same element types)
+                for (size_t idx = 0; idx < a_arr.size() && idx < b_arr.size(); ++idx)
                 {
                     const auto& a_elem = a_arr[idx];
                     const auto& b_elem = b_arr[idx];
 
-                    if (a.is<t_string>())
+                    if (a_elem.is<t_string>() && b_elem.is<t_string>())
                     {
                         if (a_elem.data<d_string, std::string>() < b_elem.data<d_string, std::string>()) return sort_flag;
                         if (a_elem.data<d_string, std::string>() > b_elem.data<d_string, std::string>()) return !sort_flag;
                     }
-                    else if (a.is<t_scalar>())
+                    else if (a_elem.is<t_scalar>() && b_elem.is<t_scalar>())
                     {
                         if (a_elem.data<d_scalar, float>() < b_elem.data<d_scalar, float>()) return sort_flag;
                         if (a_elem.data<d_scalar, float>() > b_elem.data<d_scalar, float>()) return !sort_flag;
                     }
                 }
-                return !sort_flag;
+                // equal: neither goes before the other (std::sort needs a strict weak ordering)
+                return false;
             }
             else if (a.is<t_string>())
             {
@@ -805,7 +808,7 @@ namespace
                 if (a.data<d_scalar, float>() > b.data<d_scalar, float>()) return !sort_flag;
                 return false;
             }
-            return !sort_flag;
+            return false;
             });
 
         return {};
